@@ -34,7 +34,7 @@ JudgeCors ==
 
 CStep ==
     /\ l >= 1 /\ l <= Len(T.ev) /\ verdict = "ok"
-    /\ verdict' = (CASE Ev.op = "req" -> JudgeCors [] Ev.op = "route" -> JudgeRoute [] OTHER -> "ok")
+    /\ verdict' = (CASE Ev.op = "req" -> JudgeCors [] Ev.op = "route" -> JudgeRoute [] Ev.op = "sink" -> JudgeSink [] OTHER -> "ok")
     /\ Apply
     /\ UNCHANGED <<wiring, cfg, other, guard, ans>>
 
